@@ -322,9 +322,11 @@ Definition chk (v : value) (leaves : list (list string * value)) : bool :=
                     except Exception as e:
                         ctx.violation(f"transform-raises:{name}:{type(e).__name__}", f"{name} ({nsname}, {width}) save/load raised {e!r}", case)
         # ---------------- (e) flows
-        data = np.random.default_rng(5).normal(size=(60, 2))
+        data_all = data = np.random.default_rng(5).normal(size=(60, 2))
+        data3 = np.random.default_rng(6).normal(size=(60, 3)) * np.asarray([1.0, 0.3, 2.0]) + np.asarray([0.0, 1.0, -2.0])
 
-        def flow_case(name, make, fitkw):
+        def flow_case(name, make, fitkw, data=None):
+            data = data_all if data is None else data
             case = {"flow": name}
             ctx.count(("flow", name), True, kind="flow")
             path = os.path.join(root, "f.h5")
@@ -354,6 +356,10 @@ Definition chk (v : value) (leaves : list (list string * value)) : bool :=
             flow_case(f"zuko-bounded-{width}", lambda: ZukoFlow(2, seed=1, dtype=width, data_transform=FlowTransform(
                 parameters=["w", "b"], prior_bounds={"b": (-7.0, 9.0), "w": (-9.0, 11.0)}, xp=ZukoFlow.xp, dtype=width)), {"n_epochs": 1})
             flow_case(f"flowjax-plain-{width}", lambda: FlowJax(2, key=jax.random.key(0), dtype=width), {"max_epochs": 1, "show_progress": False})
+            # three coordinates (flowjax then permutes the coordinates between layers with a permutation drawn from the flow's key:
+            # structural, non-float leaves that must survive the round trip), built with a key other than the loader's template key
+            flow_case(f"flowjax-3d-{width}", lambda: FlowJax(3, key=jax.random.key(7), dtype=width), {"max_epochs": 2, "show_progress": False}, data3)
+            flow_case(f"zuko-3d-{width}", lambda: ZukoFlow(3, seed=3, dtype=width), {"n_epochs": 1}, data3)
             flow_case(f"flowjax-options-{width}", lambda: FlowJax(2, key=jax.random.key(0), dtype=width, flow_layers=2, nn_width=8),
                       {"max_epochs": 1, "show_progress": False})
         # ---------------- (f) configuration rebuilt by resume_from_file
